@@ -266,11 +266,15 @@ func (P *Program) bindFuncValues() {
 			tc.IfaceReq = map[string][]*Clause{}
 		}
 		tc.IfaceReq[name] = []*Clause{}
+		inherit := true // the implementation is verified under the func type's preconditions too (direct callers must establish them as well)
 		for _, rq := range ct.Requires {
 			if exprMentions(rq.Expr, "self") {
 				continue
 			}
 			tc.IfaceReq[name] = append(tc.IfaceReq[name], rc(rq, rq.Label))
+			if inherit {
+				tc.Requires = append(tc.Requires, rc(rq, rq.Label))
+			}
 		}
 		if !tc.HasMod && ct.HasMod {
 			selfFree := true
@@ -394,8 +398,12 @@ func (P *Program) bindImplementations(byRel map[string]*ssa.Function) {
 				ct.IfaceReq = map[string][]*Clause{}
 			}
 			ct.IfaceReq[ic.Name] = []*Clause{}
+			inherit := len(ct.Requires) == 0 // no preconditions of its own: it is written against the interface's
 			for _, rq := range ic.Requires {
 				ct.IfaceReq[ic.Name] = append(ct.IfaceReq[ic.Name], rc(rq, rq.Label))
+				if inherit {
+					ct.Requires = append(ct.Requires, rc(rq, rq.Label))
+				}
 			}
 			if !ct.HasMod && ic.HasMod {
 				ct.HasMod = true
